@@ -201,6 +201,30 @@ def gen_where(rng, prim):
   return atom()
 
 
+def make_sched(sj, top=False):
+  """The pg.evolution.scalars object for a schedule of the family."""
+  from pyglove.ext import scalars
+  h = sj[0]
+  if h == 'c':
+    return scalars.Constant(sj[1]) if top else sj[1]
+  if h == 'step':
+    return scalars.STEP
+  a, b = make_sched(sj[1]), make_sched(sj[2])
+  if isinstance(a, int) and isinstance(b, int):
+    a = scalars.Constant(a)
+  if h == 'add':
+    return a + b
+  if h == 'sub':
+    return a - b
+  if h == 'mul':
+    return a * b
+  if h == 'floordiv':
+    return a // b
+  if h == 'mod':
+    return a % b
+  raise ValueError(sj)
+
+
 def make_where(f):
   """The Python callable for a filter of the family (robust on nodes without a decision point)."""
   def info(d):
@@ -248,11 +272,34 @@ class ExprGen:
   def __init__(self, rng, npop, sloppy=False, oracle_only=False):
     self.rng, self.npop, self.sloppy, self.oo = rng, npop, sloppy, oracle_only
 
+  def sched(self, nonneg=True):
+    """A step-driven integer schedule (pg.evolution.scalars): STEP, constants, + - * // %."""
+    r = self.rng
+    k = r.below(7 if nonneg else 8)
+    st = ['step']
+    if k == 0:
+      return ['sched', ['mod', st, ['c', r.randint(2, 4)]]]
+    if k == 1:
+      return ['sched', ['floordiv', st, ['c', r.randint(2, 3)]]]
+    if k == 2:
+      return ['sched', ['add', ['mod', st, ['c', 2]], ['c', r.randint(0, 2)]]]
+    if k == 3:
+      return ['sched', ['mul', ['mod', st, ['c', 3]], ['c', r.randint(1, 2)]]]
+    if k == 4:
+      return ['sched', ['c', r.randint(0, 3)]]
+    if k == 5:
+      return ['sched', ['floordiv', ['add', st, ['c', 1]], ['c', 2]]]
+    if k == 6:
+      return ['sched', ['mod', ['mul', st, ['c', 3]], ['c', 4]]]
+    return ['sched', ['sub', ['c', r.randint(1, 3)], st]]            # may go negative
+
   def nspec(self):
     r = self.rng
     k = r.below(10)
     if k == 0:
       return None
+    if r.chance(0.1):
+      return self.sched()
     if k <= 2:
       return ['frac', r.choice([1, 2, 3, 4]), 2]
     return r.choice([0, 1, 1, 2, 2, 3, 4, self.npop, self.npop + 2])
@@ -343,7 +390,7 @@ class ExprGen:
     if k == 'slice':
       a, fa = self.expr(depth - 1, fit)
       if r.chance(0.3):
-        s = ['index', r.choice([0, 0, 1, -1, -2, 2, 5])]
+        s = ['index', self.sched(nonneg=False) if r.chance(0.25) else r.choice([0, 0, 1, -1, -2, 2, 5])]
       else:
         s = ['range', r.choice([None, 0, 1, 2]), r.choice([None, None, 1, 2, 3, 9]), r.choice([1, 1, 1, 2, 3])]
       return ['slice', a, s], fa
@@ -353,6 +400,8 @@ class ExprGen:
       if k == 'power' and not fa:
         # the body must accept its own output: avoid reward-hungry selectors inside
         a, fa = self.expr_nofit(depth - 1)
+      if r.chance(0.25):
+        return [k, a, self.sched(nonneg=False)], (fa if k == 'repeat' else fa and fit)
       return [k, a, n], (fa if n > 0 or k == 'repeat' else fit)
     if k == 'choice':
       items = []
@@ -648,7 +697,7 @@ class C14(Prop):
     e, _ = g.expr(r.weighted([(1, 0), (3, 1), (5, 2), (5, 3), (4, 4)]))
     if mode == 'sloppy' and r.chance(0.3) and pop:
       pop[r.below(len(pop))]['fit'] = None
-    return {'spec': spec, 'pop': pop, 'expr': e, 'seed': r.below(1 << 30)}
+    return {'spec': spec, 'pop': pop, 'expr': e, 'seed': r.below(1 << 30), 'step': r.below(10)}
 
   # -- real objects ------------------------------------------------------------------------
   def cached_spec(self, s):
@@ -689,6 +738,8 @@ class C14(Prop):
       return (ctx['seed'] * 1000003 + ctx['n'] * 7919) % (1 << 31)
 
     def nval(n):
+      if isinstance(n, list) and n[0] == 'sched':
+        return make_sched(n[1], top=True)
       if isinstance(n, list):
         return n[1] / float(1 << n[2])
       return n
@@ -773,12 +824,12 @@ class C14(Prop):
       s = e[2]
       a = self.build_expr(e[1], ctx)
       if s[0] == 'index':
-        return a[s[1]]
+        return a[nval(s[1])]
       return a[slice(s[1], s[2], s[3])]
     if h == 'repeat':
-      return self.build_expr(e[1], ctx) * e[2]
+      return self.build_expr(e[1], ctx) * nval(e[2])
     if h == 'power':
-      return self.build_expr(e[1], ctx) ** e[2]
+      return self.build_expr(e[1], ctx) ** nval(e[2])
     if h == 'choice':
       items = [(self.build_expr(it[0], ctx), unratio(it[1])) for it in e[1]]
       if len(items) == 1 and e[2] is None:
@@ -951,7 +1002,7 @@ class C14(Prop):
     _rec._merge_multi_choice = mm_spy             # pylint: disable=protected-access
     try:
       try:
-        out = op(pop_arg)
+        out = op(pop_arg, step=case.get('step', 0))
       except Exception as ex:     # pylint: disable=broad-except
         err = type(ex).__name__
     finally:
@@ -1277,7 +1328,8 @@ class C14(Prop):
     for ind in case['pop']:
       pop.append({'nums': ind['nums'], 'beliefs': self.positional_beliefs(case['spec'], ind['nums']),
                   'fit': ind.get('fit')})
-    return {'spec': case['spec'], 'pop': pop, 'oracle': out['oracle'], 'expr': case['expr']}
+    return {'spec': case['spec'], 'pop': pop, 'oracle': out['oracle'], 'expr': case['expr'],
+            'step': case.get('step', 0)}
 
   @staticmethod
   def positional_beliefs(spec, nums):
@@ -1398,6 +1450,8 @@ class C14(Prop):
       h.append('prim:' + p)
     if '"kinds"' in json.dumps(case['expr']) or '"valueLt"' in json.dumps(case['expr']) or '"indexEq"' in json.dumps(case['expr']) or '"valueEq"' in json.dumps(case['expr']):
       h.append('mutator-with-where-filter')
+    if '"sched"' in json.dumps(case['expr']):
+      h.append('scheduled-scalar(step=%d)' % case.get('step', 0))
     for p in sorted(set(expr_heads(case['expr']))):
       if p != 'prim':
         h.append('comb:' + p)
